@@ -4,7 +4,11 @@ pub mod monitors;
 pub mod pol;
 pub mod oracle;
 pub mod prng;
+pub mod procmon;
 pub mod refvm;
 pub mod satcase;
 pub mod target;
 pub mod world;
+
+#[global_allocator]
+static ALLOC: procmon::Counting = procmon::Counting;
